@@ -13,7 +13,9 @@ evo_config help.
 from __future__ import annotations
 
 import copy
+import importlib
 import json
+import os
 import sys
 
 from ..core import Check, RunResult, digest_of, HarnessError
@@ -40,10 +42,25 @@ def cmd_parse(sim, vp, cmd, res):
         vproc.load_module(name)
     parser = sys.modules[f"evo.main_{app}_parser"].parser()
     sys.argv = [f"evo_{app}"] + list(cmd["argv"])
+    if cmd.get("entry_order"):
+        # entry_points.handle_entry_point: the app's main module is imported
+        # after the parser is built and before the arguments are parsed
+        importlib.import_module(f"evo.main_{app}")
     args = parser.parse_args(list(cmd["argv"]))
     if hasattr(args, "config"):
         args = sys.modules["evo.entry_points"].merge_config(args)
     res["namespace"] = dict(vars(args))
+    if cmd.get("table_probe"):
+        # what main_res / main_traj run() do for --save_table: the table
+        # writer is called without format arguments, the settings decide
+        import pandas as pd
+        pb = importlib.import_module("evo.tools.pandas_bridge")
+        df = pd.DataFrame({"ca": [1.5, 2.5], "cb": [3.5, 4.5]},
+                          index=["rx", "ry"])
+        pb.save_df_as_table(df, cmd["table_probe"], confirm_overwrite=False)
+        with open(cmd["table_probe"]) as f:
+            res["table"] = f.read()
+        os.remove(cmd["table_probe"])
     if cmd.get("import_plot"):
         # what main_*.run() does next: import the plotting module, which
         # configures matplotlib / seaborn from SETTINGS at import time
@@ -458,7 +475,8 @@ class C18(Check):
         "generate_int_option", "generate_negative_number",
         "generate_multi_value", "generate_overwrite_prompt",
         "run_c_overrode_cli", "run_c_overrode_settings", "lock_refused",
-        "run_c_plot_import_checked",
+        "run_c_plot_import_checked", "run_c_table_writer_checked",
+        "run_c_table_setting_overridden",
     )
 
     def setup_worker(self):
@@ -608,6 +626,12 @@ class C18(Check):
                 for k in rng.sample(keys, rng.randint(0, 3)):
                     g = sg.gen_group(rng, k, dflt[k])
                     content[k] = sg.user_value(dflt[k], g[1:], k)
+                if app in ("res", "traj") and rng.random() < 0.5:
+                    # settings consumed by --save_table
+                    for k in ("table_export_format", "table_export_transpose"):
+                        if rng.random() < 0.7:
+                            g = sg.gen_group(rng, k, dflt[k])
+                            content[k] = sg.user_value(dflt[k], g[1:], k)
                 if rng.random() < 0.3:
                     # a key that is neither a setting nor an option; some are
                     # names the container has for other reasons (dict methods)
@@ -1045,8 +1069,14 @@ class C18(Check):
                 effective.setdefault(k, v)
         effective.update({k: v for k, v in cfg.items() if k in effective})
         import_plot = sg.plot_import_safe(effective)
+        table_probe = None
+        if op["app"] in ("res", "traj") and effective.get(
+                "table_export_format") in ("csv", "json") and isinstance(
+                    effective.get("table_export_transpose"), bool):
+            table_probe = f"{WORK}/table_probe_out"
         cmds = [
             {"cmd": "parse", "app": op["app"], "import_plot": import_plot,
+             "entry_order": True, "table_probe": table_probe,
              "argv": pos + list(op["argv"]) + ["-c", op["config"]]},
             {"cmd": "parse", "app": op["app"], "argv": pos + list(op["argv"])},
             {"cmd": "start"},
@@ -1117,6 +1147,24 @@ class C18(Check):
                                   rc_key="backend",
                                   expected=st["plot_backend"],
                                   actual=rc["backend"])
+        table = results[0].get("table")
+        if table is not None:
+            sim.probe("run_c_table_writer_checked")
+            fmt = "json" if table.lstrip().startswith("{") else "csv"
+            head = table.lstrip()[:12]
+            if fmt == "json":
+                transposed = head.startswith('{"rx"')
+            else:
+                transposed = head.startswith(",rx")
+            for key, got in (("table_export_format", fmt),
+                             ("table_export_transpose", transposed)):
+                if got != st[key]:
+                    return self._fail(
+                        "run_c", "import-time-setting-not-overridden",
+                        key=key, expected=st[key], actual=got, app=op["app"],
+                        in_config=key in cfg)
+                if key in cfg and not same(cfg[key], ms[key]):
+                    sim.probe("run_c_table_setting_overridden")
         # the next process sees the durable values again
         st2 = results[2]["settings"]
         for k, val in ms.items():
